@@ -36,11 +36,17 @@ class FakeProc:
 
 
 class FakeMp:
+    """stands for the multiprocessing module: only current_process().daemon is scripted, everything else (e.g. cpu_count,
+    which ignores affinity / LOKY_MAX_CPU_COUNT) is the real module's"""
+
     def __init__(self, daemon):
         self._d = daemon
 
     def current_process(self):
         return FakeProc(self._d)
+
+    def __getattr__(self, name):
+        return getattr(REAL_MP, name)
 
 
 def call_in(main, f):
